@@ -97,3 +97,39 @@ func runWitnesses(c *ctx) {
 		c.count("witness_cases")
 	}
 }
+
+type scriptWitness struct {
+	id  string
+	cfg runCfg
+	ss  []Stmt
+}
+
+var scriptWitnesses = []scriptWitness{
+	// F1/F25: a dropped column re-added with a position
+	{"w-F1-readd-after", my, []Stmt{tbl("t", ints("a", "b", "c")...), {Kind: "dropColumn", T: "t", A: "a"}, {Kind: "addColumn", T: "t", Col: col("a", "int(11)"), Pos: "after", After: "c"}}},
+	{"w-F25-readd-slot", my, []Stmt{tbl("t", ints("a", "b", "c")...), {Kind: "dropColumn", T: "t", A: "b"}, {Kind: "addColumn", T: "t", Col: col("b", "int(11)"), Pos: "none"}}},
+	// F8: MODIFY COLUMN accumulates options
+	{"w-F8-modify-duplicates-options", my, []Stmt{tbl("t", col("a", "int(11)"), col("b", "varchar(64)", oNotNull)), {Kind: "modifyColumn", T: "t", Col: col("b", "varchar(255)", oNotNull)}}},
+	// F9: USING lost, renamed index vanishes
+	{"w-F9-using-lost", my, []Stmt{tbl("t", ints("a", "b")...), {Kind: "createIndex", T: "t", A: "i", Pk: []string{"a"}, Using: "HASH"}}},
+	{"w-F9-rename-index", my, []Stmt{tbl("t", ints("a", "b")...), idx("t", "i", false, "a"), {Kind: "renameIndex", T: "t", A: "i", B: "j"}}},
+	// F7 (fixed): DROP FOREIGN KEY
+	{"w-F7-drop-foreign-key", my, []Stmt{tbl("u", col("id", "int(11)", oNotNull, oPk)), tbl("t", ints("id", "uid")...), fk("t", "fk_u_t", "uid", "u", "id"), {Kind: "dropFk", T: "t", A: "fk_u_t"}}},
+	// dropped indexed column: the index keeps the stale column
+	{"w-drop-indexed-column", my, []Stmt{tbl("t", ints("a", "b")...), idx("t", "i", false, "b"), {Kind: "dropColumn", T: "t", A: "b"}}},
+	// F10 (dump side): a dropped table
+	{"w-F10-dropped-table-dump", my, []Stmt{tbl("t", ints("a")...), tbl("x", ints("a")...), {Kind: "dropTable", T: "x"}}},
+	// recorded findings (ids referenced from known_findings.json)
+	{"w-KF-pk-column-modified", my, []Stmt{tbl("t", col("id", "int(11)", oNotNull, oPk), col("a", "int(11)")), {Kind: "modifyColumn", T: "t", Col: col("id", "bigint(20)", oNotNull)}}},
+	{"w-KF-rename-column", my, []Stmt{tbl("t", ints("a", "b")...), idx("t", "i", false, "a"), {Kind: "renameColumn", T: "t", A: "a", B: "z"}}},
+	{"w-KF-postgres-reader-vocabulary", pg, []Stmt{tbl("t", col("a", "INT8", oNotNull)), tbl("u", typed("INT8", "x")...), idx("t", "i", false, "a")}},
+	{"w-KF-sqlite-reader-vocabulary", lite, []Stmt{tbl("t", col("a", "INTEGER", oDef("1")))}},
+	{"w-F13-rename-then-drop", my, []Stmt{tbl("t", ints("a", "b")...), {Kind: "renameColumn", T: "t", A: "a", B: "z"}, {Kind: "dropColumn", T: "t", A: "z"}}},
+}
+
+func runScriptWitnesses(c *ctx) {
+	for _, w := range scriptWitnesses {
+		runScript(c, w.id, w.cfg, w.ss, sqlStyle{dialect: w.cfg.dialect}, []int{1, 2})
+		c.count("witness_cases")
+	}
+}
